@@ -41,6 +41,9 @@ type world struct {
 	// consumeNotes: every node answers MouseEnter / MouseLeave / FocusIn / FocusOut with
 	// ConsumeEventCmd (as vxfw/button does): a consume outside a dispatch must not leak into the next event
 	consumeNotes bool
+	// a leaf that the layout places under a different parent from one frame to the next
+	dynChild  *nodeSpec
+	dynParent string
 }
 
 type setFocus struct{ target string }
@@ -157,6 +160,10 @@ func (n *node) Draw(ctx vxfw.DrawContext) (vxfw.Surface, error) {
 		ss := vxfw.NewSubSurface(c.col, c.row, cs)
 		ss.ZIndex = c.z
 		s.Children = append(s.Children, ss)
+	}
+	if d := n.wd.dynChild; d != nil && n.wd.dynParent == n.spec.name {
+		cs, _ := n.wd.nodes[d.name].Draw(ctx)
+		s.Children = append(s.Children, vxfw.NewSubSurface(d.col, d.row, cs))
 	}
 	return s, nil
 }
@@ -556,6 +563,51 @@ func hoverSweep(idx, n int) {
 	}
 }
 
+// relayoutSweep: the focused leaf keeps the focus while the layout moves it under another parent;
+// after the next frame a key follows the new ancestor chain.
+func relayoutSweep(idx, n int) {
+	mk := func(name string, col, row, w, h int, kids ...*nodeSpec) *nodeSpec {
+		return &nodeSpec{name: name, col: col, row: row, w: w, h: h, children: kids}
+	}
+	t := tree{"root(A,B)+moving L", mk("root", 0, 0, 5, 3, mk("A", 0, 0, 2, 2), mk("B", 3, 0, 2, 2)), false}
+	leaf := mk("L", 0, 0, 1, 1)
+	ns := []string{"root", "A", "B", "L"}
+	k := 0
+	for mask := 0; mask < 1<<len(ns); mask++ {
+		k++
+		if k%n != idx {
+			continue
+		}
+		caps := map[string]bool{}
+		for i, nm := range ns {
+			caps[nm] = mask>>i&1 == 1
+		}
+		wd, rig := startRig(t, caps)
+		build(leaf, caps, wd)
+		wd.dynChild, wd.dynParent = leaf, "A"
+		rig.Post(vaxis.Redraw{})
+		rig.Tick()
+		wd.focus("L")
+		for step, parent := range []string{"A", "B", "A", "B"} {
+			wd.dynParent = parent
+			rig.Post(vaxis.Redraw{})
+			rig.Tick()
+			wd.log = nil
+			rig.Inject("x")
+			r.Count("relayout_cases", 1)
+			got := filterRouting(wd.log, "key")
+			want, opt := route([]string{"root", parent, "L"}, caps, map[string]string{}, "key")
+			if !matches(got, want, opt) {
+				r.Violation("C15|routing-after-relayout|key", mask, detail{Tree: t.name, Setup: fmt.Sprintf("capturers %v, focus L, step %d: L drawn under %s", caps, step, parent), Event: "key x", Got: got, Want: want,
+					Why: "the key does not follow the focused widget's ancestor chain of the last frame"})
+				break
+			}
+			r.Distinct(explore.Hash("relayout", fmt.Sprint(mask), fmt.Sprint(step)))
+		}
+		rig.Stop()
+	}
+}
+
 // notificationSweep: widgets that consume hover / focus notifications (delivered outside the three
 // phases). Whatever notification came before, the next key, custom event or press is routed in full.
 func notificationSweep(idx, n int) {
@@ -728,6 +780,7 @@ func main() {
 			hoverSweep(idx, n)
 		case "notifications":
 			notificationSweep(idx, n)
+			relayoutSweep(idx, n)
 		case "commands":
 			commandSweep()
 		}
@@ -740,10 +793,10 @@ func main() {
 	r.Spawn(16, "hover", 0)
 	r.Spawn(16, "notifications", 0)
 	r.Spawn(1, "commands", 0)
-	n := r.Get("routing_cases") + r.Get("hover_cases") + r.Get("command_cases") + r.Get("notification_cases")
+	n := r.Get("routing_cases") + r.Get("hover_cases") + r.Get("command_cases") + r.Get("notification_cases") + r.Get("relayout_cases")
 	r.Finish(explore.Coverage{
 		States: -1, Transitions: n, Traces: n, Evaluations: n,
-		Rule:       "8 widget trees (1-4 nodes, depth <= 3, disjoint and overlapping siblings with both z orders) on a 6x3 screen with a 5x3 root; routing: every capturer mask x every focus position x every assignment of a consuming phase to at most two nodes x {key (injected as terminal input), custom event}, and a press at every screen cell, each compared with a reference router (capture root-down, target, bubble up, stop at the first consumer; the target's own capture handler left open); hover: every sequence of <= n steps over {pointer motion at 6 points incl. outside the root, terminal focus out/in, frame} followed by a focus-out: per widget enter/leave must alternate starting with enter and end closed; notifications: with every widget consuming MouseEnter/MouseLeave/FocusIn/FocusOut (delivered outside the three phases), after each of 6 notification-raising steps the next key (arriving in the same read) is routed in full, for every capturer mask and focus position; focus: every (old, new) pair gets exactly one focus-out and one focus-in; commands: Redraw, Refresh, Quit, batches, nested batches each take effect exactly once. All through the real App.Run on a fake console, stepped with virtual frame ticks. distinct = cases that passed",
+		Rule:       "8 widget trees (1-4 nodes, depth <= 3, disjoint and overlapping siblings with both z orders) on a 6x3 screen with a 5x3 root; routing: every capturer mask x every focus position x every assignment of a consuming phase to at most two nodes x {key (injected as terminal input), custom event}, and a press at every screen cell, each compared with a reference router (capture root-down, target, bubble up, stop at the first consumer; the target's own capture handler left open); hover: every sequence of <= n steps over {pointer motion at 6 points incl. outside the root, terminal focus out/in, frame} followed by a focus-out: per widget enter/leave must alternate starting with enter and end closed; notifications: with every widget consuming MouseEnter/MouseLeave/FocusIn/FocusOut (delivered outside the three phases), after each of 6 notification-raising steps the next key (arriving in the same read) is routed in full, for every capturer mask and focus position; re-layout: a focused leaf drawn alternately under two parents, a key after each frame follows the new ancestor chain, for every capturer mask; focus: every (old, new) pair gets exactly one focus-out and one focus-in; commands: Redraw, Refresh, Quit, batches, nested batches each take effect exactly once. All through the real App.Run on a fake console, stepped with virtual frame ticks. distinct = cases that passed",
 		Exhaustive: true,
 		Bounds:     map[string]any{"hover_sequence_len": r.Pick(3, 4)},
 		Assumptions: []string{"whether the focused/target widget's own CaptureEvent runs is not fixed by the property and is accepted either way",
